@@ -12,6 +12,21 @@ CLAIMED = {
    note='Trusted: Lean kernel; translate.py; CPython re parse tree as meaning of a pattern; S-RE/S-LEX sampling ties derivs/lex to CPython re and get_tokens. bytes decoding is C19.',
    technique='Lean 4 theorem by induction over the scan loop + decide over regenerated rule table + differential correspondence',
    design='§7 C01'),
+ 'C05': dict(
+   text='Token-level theorems (all token lists): plain_script_split (+_last, +_wstail): any script of units body;trail whose bodies are quiet (decidable: no ; at level<=0, no GO, '
+        'level ends <=0) is split into exactly those units; split_value_irrelevant: streams agreeing on types and on the values of keyword/punctuation tokens have identical statement '
+        'extents (so the contents of literals, quoted names, comments are irrelevant). The splitter model is tied by S-SPLIT and by the exhaustive _change_splitlevel table S-CSL; every '
+        'generated grammar statement is checked through the driver to satisfy the theorem hypotheses (same Lean definitions). Oracle on the real code: k statements, extents, region replacement.',
+   note='Trusted: Lean kernel; hand-written splitter model (tied by S-SPLIT sampled + S-CSL exhaustive); lexical bridge from grammar text to token classes is sampled (C14 covers opaque regions). Known finding KF-C05-1 (END inside parentheses).',
+   technique='Lean 4 theorems by induction over the token stream (state invariant, abstraction to shapes) + exhaustive table diff + differential correspondence',
+   design='§7 C05'),
+ 'C17': dict(
+   text='Theorem create_one_statement by structural induction over the block grammar (nested BEGIN/END, IF/FOR/WHILE … END IF/END FOR/END WHILE, nested CASE expressions, LOOP … END LOOP, inner DECLARE, '
+        'arbitrary leaves incl. semicolons, any spelling/whitespace/comments): the CREATE unit is one statement, neighbours unchanged; block_level gives the level invariant. '
+        'Counterexample theorems (decide) for FOR/WHILE…LOOP and END CASE document the three open known findings. Model tied by S-SPLIT + exhaustive S-CSL; domain check through the driver; oracle on real code.',
+   note='Trusted: as C05. Two genuine defects found by this check were repaired in /repo (fix: commits cb5557c, cd37750); three constructs remain known findings (KF-C17-1..3).',
+   technique='Lean 4 theorem by mutual structural induction over a block grammar + exhaustive table diff + differential correspondence',
+   design='§7 C17'),
 }
 TITLES = {}
 for line in open(os.path.join(VERIF, 'properties.jsonl')):
